@@ -1,8 +1,15 @@
 import TurVerif.Model.GroupCommit
+import TurVerif.Lemmas.GroupCommitLive
+import TurVerif.Lemmas.GroupCommitAck
 /-!
 C37  Group commit completes every commit exactly once.
 M-code LTS model `TurVerif.GroupCommit` of GroupCommitQueue + the caller protocol of
 `execute_small_commit`.
+
+General theorems (every number of committers, every fault pattern `fails`, every schedule) are
+proved from the inductive invariant `GroupCommit.Inv` (Lemmas/GroupCommit{,Inv,Live,Ack}.lean).
+Notation: `pcAt s i = (s.threads[i]?).map (·.pc)`, `comp s i` / `err s i` = the completed / error
+flag of commit `i` (default false).
 -/
 namespace TurVerif.C37
 open TurVerif.GroupCommit
@@ -34,5 +41,312 @@ theorem sequential_is_fine :
     quiescent s = true ∧ ackImpliesLogged s = true ∧ logNodup s = true ∧ s.log = [0, 1, 2] ∧
     s.flushInProgress = false := by
   decide
+
+/-! ### general theorems: all committer counts, all fault patterns, all schedules -/
+
+/-- (1) EXACTLY-ONCE, upper half: no payload is written to the log twice. -/
+theorem written_at_most_once (fails : List Bool) (sched : List Nat) :
+    (run (init fails) sched).log.Nodup :=
+  (inv_reachable fails sched).j2
+
+/-- (1') a commit id is in at most one place: `pending` is duplicate-free and disjoint from the log
+and from every owned batch; the batches about to be written are duplicate-free, disjoint from the
+log and pairwise disjoint; an unsubmitted commit is nowhere. -/
+theorem commit_in_one_place (fails : List Bool) (sched : List Nat) :
+    let s := run (init fails) sched
+    s.pending.Nodup ∧ (∀ a, a ∈ s.pending → a ∉ s.log) ∧
+    (∀ j b a, (pcAt s j = some (.write b) ∨ (∃ ok, pcAt s j = some (.mark b ok)) ∨
+        (∃ ok, pcAt s j = some (.clear b ok))) → a ∈ b → a ∉ s.pending) ∧
+    (∀ j b, pcAt s j = some (.write b) → b.Nodup ∧ ∀ a, a ∈ b → a ∉ s.log) ∧
+    (∀ i j bi bj, i ≠ j → pcAt s i = some (.write bi) → pcAt s j = some (.write bj) →
+        ∀ a, a ∈ bi → a ∉ bj) ∧
+    (∀ a, pcAt s a = some .start → a ∉ s.pending ∧ a ∉ s.log) := by
+  intro s
+  have i := inv_reachable fails sched
+  refine ⟨i.j1, i.j4, ?_, i.j3, i.j5, fun a ha => ⟨(i.u a ha).1, (i.u a ha).2.1⟩⟩
+  intro j b a hj ha
+  rcases hj with h | ⟨ok, h⟩ | ⟨ok, h⟩
+  · exact i.k.1 j b a h ha
+  · exact i.k.2.1 j b ok a h ha
+  · exact i.k.2.2 j b ok a h ha
+
+/-- (2) NO STUCK FLAG: when every committer has returned, `flush_in_progress` is clear and nothing
+is left pending. -/
+theorem no_stuck_flag (fails : List Bool) (sched : List Nat) :
+    let s := run (init fails) sched
+    quiescent s = true → s.flushInProgress = false ∧ s.pending = [] := by
+  intro s hq
+  have i := inv_reachable fails sched
+  have hd := (quiescent_iff s).mp hq
+  have hp : s.pending = [] := by
+    cases hpe : s.pending with
+    | nil => rfl
+    | cons a rest =>
+      have ha : a ∈ s.pending := by rw [hpe]; exact List.mem_cons_self
+      rcases i.g a ha with h | h | h <;> (obtain ⟨ok, e⟩ := hd a _ h; cases e)
+  refine ⟨?_, hp⟩
+  cases hf : s.flushInProgress with
+  | false => rfl
+  | true =>
+    rcases i.f hf with ⟨j, pc, hj, ho⟩ | ⟨hne, _⟩
+    · obtain ⟨ok, e⟩ := hd j pc hj
+      subst e
+      cases ho
+    · exact (hne hp).elim
+
+/-- (3a) NO LOST WAKE-UP: whenever a committer is blocked on the condition variable, some OTHER
+thread owns a batch or is about to call `take_pending` — i.e. is on its way to `notify_all`.
+(Stronger than required: threads at `start` / at the loop head are not needed as witnesses.) -/
+theorem no_lost_wakeup (fails : List Bool) (sched : List Nat) (a : Nat) :
+    let s := run (init fails) sched
+    pcAt s a = some .condWait →
+      ∃ j pc, j ≠ a ∧ pcAt s j = some pc ∧ willNotify pc = true :=
+  fun ha => no_lost_wakeup_of_inv (inv_reachable fails sched) ha
+
+/-- (3a') why a committer is blocked: its commit is pending while a flush is in progress, or it is
+in a batch whose owner has not yet run `notify_all`. -/
+theorem blocked_only_behind_a_flush (fails : List Bool) (sched : List Nat) (a : Nat) :
+    let s := run (init fails) sched
+    pcAt s a = some .condWait →
+      (a ∈ s.pending ∧ s.flushInProgress = true) ∨
+      (∃ j b, pcAt s j = some (.write b) ∧ a ∈ b) ∨
+      (∃ j b ok, pcAt s j = some (.mark b ok) ∧ a ∈ b) ∨
+      (∃ j b ok, pcAt s j = some (.clear b ok) ∧ a ∈ b) :=
+  fun ha => blocked_cases (inv_reachable fails sched) ha
+
+/-- (3b) NO DEADLOCK: in every reachable state in which some committer has not returned, some
+thread has an enabled step. -/
+theorem no_deadlock (fails : List Bool) (sched : List Nat) :
+    let s := run (init fails) sched
+    quiescent s = false → ∃ tid, (step s tid).isSome = true :=
+  fun hq => progress_of_inv (inv_reachable fails sched) hq
+
+/-- (3c) every enabled step strictly decreases the work measure (`n + k` per thread, `k` = rank of
+its pc, `n` = number of threads: a `clear` step is worth `n + 1` and pays for the at most `n`
+threads it sends back to the head of the wait loop). -/
+theorem step_decreases_work (s s' : State) (tid : Nat) (hs : step s tid = some s') :
+    workLeft s' < workLeft s := GroupCommit.step_decreases_work hs
+
+/-- (3d) EVERY COMMIT COMPLETES: every reachable state can be extended (by at most `workLeft`
+steps) to a state where every committer has returned, the flag is clear and nothing is pending.
+With (3b) and (3c): EVERY maximal execution ends in such a state after at most `workLeft` steps. -/
+theorem all_commits_complete (fails : List Bool) (sched : List Nat) :
+    ∃ sched', let s := run (init fails) (sched ++ sched')
+      quiescent s = true ∧ s.flushInProgress = false ∧ s.pending = [] ∧
+      sched'.length ≤ workLeft (run (init fails) sched) := by
+  obtain ⟨sched', h1, h2⟩ := completes_of_inv _ (inv_reachable fails sched) (Nat.le_refl _)
+  refine ⟨sched', ?_, ?_, ?_, h2⟩
+  · rw [run_append]; exact h1
+  · have := no_stuck_flag fails (sched ++ sched')
+    rw [run_append] at this ⊢
+    exact (this h1).1
+  · have := no_stuck_flag fails (sched ++ sched')
+    rw [run_append] at this ⊢
+    exact (this h1).2
+
+/-- (4) FAILURE REACHES THE WAITING MEMBERS: when the owner `tid` of a batch whose write failed
+marks it (`pc = mark b false`), every member `a` of the batch that is still inside the wait loop
+(`waitLock` / `condWait`) — and the owner itself — can from then on only be in the wait loop, at the
+owner's `clear` step, or returned with an ERROR; in particular it has returned the error whenever
+the system is quiescent.
+THE EXCEPTION (made explicit by the hypothesis): a member that is neither in the wait loop nor the
+owner is a self-elected leader that already left `submit_and_wait` with `Ok(())` (`pc` = take /
+write / mark / clear / done, see `fail_member_cases`); it never looks at its error flag again:
+`failure_not_reported_counterexample`, `parked_leader_failure_not_reported_counterexample`. -/
+theorem fail_reaches_waiting_members (fails : List Bool) (sched : List Nat) (tid : Nat)
+    (b : List Nat) (a : Nat) (ext : List Nat) :
+    let s := run (init fails) sched
+    pcAt s tid = some (.mark b false) → a ∈ b →
+    (pcAt s a = some .waitLock ∨ pcAt s a = some .condWait ∨ a = tid) →
+    let s' := run s (tid :: ext)
+    (pcAt s' a = some .waitLock ∨ pcAt s' a = some .condWait ∨
+      (∃ b', pcAt s' a = some (.clear b' false)) ∨ pcAt s' a = some (.done false)) ∧
+    (quiescent s' = true → pcAt s' a = some (.done false)) := by
+  intro s hm ha hw s'
+  have i := inv_reachable fails sched
+  have hen : (step s tid).isSome = true := willNotify_enabled hm rfl
+  cases hs : step s tid with
+  | none => rw [hs] at hen; cases hen
+  | some s1 =>
+    have t1 : Told s1 a := told_of_mark i.len hs hm ha hw
+    have t2 : Told s' a := by
+      show Told (run s (tid :: ext)) a
+      simp only [run, hs, Option.getD_some]
+      exact told_run t1 ext
+    refine ⟨t2.2.2, ?_⟩
+    intro hq
+    have hd := (quiescent_iff s').mp hq
+    rcases t2.2.2 with h | h | ⟨b', h⟩ | h
+    · obtain ⟨ok, e⟩ := hd a _ h; cases e
+    · obtain ⟨ok, e⟩ := hd a _ h; cases e
+    · obtain ⟨ok, e⟩ := hd a _ h; cases e
+    · exact h
+
+/-- (4') the members of a batch that is being marked: inside the wait loop, the owner itself, or
+past the loop (self-elected leaders: take / write / mark / clear of ANOTHER batch / returned). -/
+theorem fail_member_cases (fails : List Bool) (sched : List Nat) (tid : Nat) (b : List Nat)
+    (ok : Bool) (a : Nat) (pc : Pc) :
+    let s := run (init fails) sched
+    pcAt s tid = some (.mark b ok) → a ∈ b → pcAt s a = some pc →
+    pc = .waitLock ∨ pc = .condWait ∨ a = tid ∨
+      (a ≠ tid ∧ (pc = .take ∨ isOwner pc = true ∨ ∃ r, pc = .done r)) := by
+  intro s hm ha hp
+  have i := inv_reachable fails sched
+  by_cases e : a = tid
+  · exact Or.inr (Or.inr (Or.inl e))
+  · cases pc with
+    | start => exact ((i.u a hp).2.2.2.2.1 tid b ok hm ha).elim
+    | waitLock => exact Or.inl rfl
+    | condWait => exact Or.inr (Or.inl rfl)
+    | take => exact Or.inr (Or.inr (Or.inr ⟨e, Or.inl rfl⟩))
+    | write _ => exact Or.inr (Or.inr (Or.inr ⟨e, Or.inr (Or.inl rfl)⟩))
+    | mark _ _ => exact Or.inr (Or.inr (Or.inr ⟨e, Or.inr (Or.inl rfl)⟩))
+    | clear _ _ => exact Or.inr (Or.inr (Or.inr ⟨e, Or.inr (Or.inl rfl)⟩))
+    | done r => exact Or.inr (Or.inr (Or.inr ⟨e, Or.inr (Or.inr ⟨r, rfl⟩)⟩))
+
+/-- (5) ACK IMPLIES LOGGED, exact characterisation of the exceptions.  If committer `a` has been
+told "success" and its payload is not in the log, then
+  (i)  `a` ELECTED ITSELF leader: at some point of the schedule it was at the head of the wait loop
+       with its commit not completed, no flush in progress and something pending, and so left
+       `submit_and_wait` with `Ok(())` without its commit having been completed, and
+  (ii) its commit is held, still unwritten, in the batch of ANOTHER thread `j ≠ a` (`write b` or
+       `mark b false`), or has been failed (`err`).
+Every other path is safe: a committer released by completion (`completed ∧ ¬error`) is in the log
+(`ack_logged_unless_self_elected`), and so is a leader that drains its own commit.
+NOTE: the conjectured sharper form "…its commit was drained by another thread's `take` WHILE IT WAS
+ITSELF AT `take`" is FALSE of the model and of the code: `ack_drained_while_parked_counterexample`
+(the commit can be drained while its committer is parked on the condition variable; the committer
+then elects itself when a third thread clears `flush_in_progress`). -/
+theorem ack_implies_logged_partial (fails : List Bool) (sched : List Nat) (a : Nat) :
+    let s := run (init fails) sched
+    pcAt s a = some (.done true) → a ∉ s.log →
+    (∃ pre post, sched = pre ++ a :: post ∧ electsAt (run (init fails) pre) a = true) ∧
+    ((∃ j b, j ≠ a ∧ pcAt s j = some (.write b) ∧ a ∈ b) ∨
+     (∃ j b, j ≠ a ∧ pcAt s j = some (.mark b false) ∧ a ∈ b) ∨ err s a = true) := by
+  intro s hd hl
+  exact ⟨(mem_elected_iff _ _ _).mp (ack_unlogged_elected fails sched a hd hl),
+    ack_unlogged_held (inv_reachable fails sched) hd hl⟩
+
+/-- (5') contrapositive: a committer that never elected itself and is told "success" is logged. -/
+theorem ack_logged_unless_self_elected (fails : List Bool) (sched : List Nat) (a : Nat) :
+    let s := run (init fails) sched
+    (∀ pre post, sched = pre ++ a :: post → electsAt (run (init fails) pre) a = false) →
+    pcAt s a = some (.done true) → a ∈ s.log := by
+  intro s hne hd
+  apply Classical.byContradiction
+  intro hl
+  obtain ⟨⟨pre, post, h1, h2⟩, _⟩ := ack_implies_logged_partial fails sched a hd hl
+  rw [hne pre post h1] at h2
+  cases h2
+
+/-- (5'') completed without error means logged (the path of every non-leader). -/
+theorem completed_ok_is_logged (fails : List Bool) (sched : List Nat) (a : Nat) :
+    let s := run (init fails) sched
+    comp s a = true → err s a = false → a ∈ s.log :=
+  (inv_reachable fails sched).l a
+
+/-- (6) NO COMMIT IS LOST: when every committer has returned, every commit is in the log or has
+its error flag set. -/
+theorem no_commit_lost (fails : List Bool) (sched : List Nat) (a : Nat) :
+    let s := run (init fails) sched
+    quiescent s = true → a < fails.length → a ∈ s.log ∨ err s a = true := by
+  intro s hq ha
+  have i := inv_reachable fails sched
+  have hd := (quiescent_iff s).mp hq
+  have hp := (no_stuck_flag fails sched hq).2
+  cases hpc : pcAt s a with
+  | none =>
+    have := (pcAt_none_run (init fails) sched a).mp hpc
+    rw [pcAt_init_none] at this
+    omega
+  | some pc =>
+    obtain ⟨ok, rfl⟩ := hd a pc hpc
+    rcases i.life a _ hpc (fun e => nomatch e) with h | ⟨j, b, hj, _⟩ | ⟨j, b, hj, _⟩ | h | h
+    · rw [hp] at h; cases h
+    · obtain ⟨ok', e⟩ := hd j _ hj; cases e
+    · obtain ⟨ok', e⟩ := hd j _ hj; cases e
+    · exact Or.inl h
+    · exact Or.inr h
+
+/-- (7) EXACTLY ONCE when no write fails: when every committer has returned, the log is a
+permutation of the committed ids `0 … n-1` — every payload was written, and written once (even
+though individual acknowledgements may have been premature). -/
+theorem exactly_once_without_failures (fails : List Bool) (sched : List Nat)
+    (hnf : ∀ f ∈ fails, f = false) :
+    let s := run (init fails) sched
+    quiescent s = true → s.log.Perm (List.range fails.length) := by
+  intro s hq
+  have i := inv_reachable fails sched
+  rw [List.perm_ext_iff_of_nodup i.j2 List.nodup_range]
+  intro a
+  rw [List.mem_range]
+  constructor
+  · intro ha
+    have h1 := i.v.2.1 a ha
+    have h2 : ¬ pcAt (init fails) a = none := fun h => h1 ((pcAt_none_run _ sched a).mpr h)
+    rw [pcAt_init_none] at h2
+    omega
+  · intro ha
+    rcases no_commit_lost fails sched a hq ha with h | h
+    · exact h
+    · obtain ⟨j, hj⟩ := i.er a h
+      rw [fw_run, fw_init] at hj
+      have hlt : j < fails.length := by
+        rcases Nat.lt_or_ge j fails.length with hl | hl
+        · exact hl
+        · simp [List.getD_eq_getElem?_getD, List.getElem?_eq_none hl] at hj
+      have hm : fails[j] ∈ fails := List.getElem_mem hlt
+      have hz := hnf _ hm
+      rw [List.getD_eq_getElem?_getD, List.getElem?_eq_getElem hlt, Option.getD_some, hz] at hj
+      cases hj
+
+/-! ### a second route to the premature acknowledgement (new counterexample) -/
+
+/-- five committers A..E = 0..4.  A leads {A,B}; C submits and parks; A finishes: B (completed) goes
+on to `take_pending`, C is back at the loop head.  C elects itself and drains {C}; D submits and
+PARKS on the condition variable (C's flush is in progress).  B — a non-leader — now runs its
+`take_pending` and drains D's commit.  C finishes: `flush_in_progress := false`, D is woken, not
+completed.  E submits.  D, at the loop head, sees no flush in progress and a pending commit (E's):
+it elects itself, drains {E}, writes it and reports SUCCESS — while its own commit is still sitting
+unwritten in B's batch. -/
+def parkedSched : List Nat :=
+  [0, 1, 0, 1, 0, 0, 2, 2, 0, 0, 2, 2, 3, 3, 1, 2, 2, 2, 4, 3, 3, 3, 3, 3]
+
+/-- D's commit is drained by B while D is blocked on the condition variable (not at `take`), and D
+is nevertheless told "success" without being in the log. -/
+theorem ack_drained_while_parked_counterexample :
+    let s0 := run (init [false, false, false, false, false]) (parkedSched.take 14)
+    let s1 := run s0 [1]
+    let s := run (init [false, false, false, false, false]) parkedSched
+    s0.pending = [3] ∧ pcAt s0 3 = some .condWait ∧ pcAt s0 1 = some .take ∧
+    pcAt s1 1 = some (.write [3]) ∧ pcAt s1 3 = some .condWait ∧
+    pcAt s 3 = some (.done true) ∧ s.log = [0, 1, 2, 4] ∧ pcAt s 1 = some (.write [3]) ∧
+    ackImpliesLogged s = false := by
+  decide
+
+/-- same schedule, B's write then fails: D keeps its success, is never logged, and everybody has
+returned. -/
+theorem parked_leader_failure_not_reported_counterexample :
+    let s := run (init [false, true, false, false, false]) (parkedSched ++ [1, 1, 1, 4, 4])
+    quiescent s = true ∧
+    (s.threads.map (·.pc)) = [.done true, .done false, .done true, .done true, .done true] ∧
+    s.log = [0, 1, 2, 4] ∧ err s 3 = true := by
+  decide
+
+/-! ### sanity: hypotheses are satisfiable -/
+
+/-- non-vacuity of `fail_reaches_waiting_members`: B parked behind leader A whose write fails -/
+example :
+    let s := run (init [true, false]) [0, 1, 0, 1, 0, 0]
+    pcAt s 0 = some (.mark [0, 1] false) ∧ pcAt s 1 = some .condWait ∧
+    (run s [0, 0]).threads.map (·.pc) = [.done false, .done false] := by decide
+
+/-- non-vacuity of `no_lost_wakeup` / `blocked_only_behind_a_flush` -/
+example :
+    let s := run (init [false, false]) [0, 1, 0, 1]
+    pcAt s 1 = some .condWait ∧ pcAt s 0 = some .take ∧ s.flushInProgress = true := by decide
+
+/-- non-vacuity of `ack_implies_logged_partial` (i): C elects itself at step 10 of `cexSched` -/
+example : electsAt (run (init [false, false, false]) (cexSched.take 10)) 2 = true := by decide
 
 end TurVerif.C37
